@@ -579,6 +579,12 @@ func (w *W) globalCell(g *ssa.Global) *Cell {
 	w.initDepth--
 	if g.Pkg != nil && !w.E.initAllowed(g.Pkg) && !w.E.zeroOKGlobal(g) {
 		c.Poison = g.String() + " (package initialiser not executed)"
+	} else if g.Pkg != nil && !w.E.zeroOKGlobal(g) {
+		// the initialiser ran but was cut short: a global it had not reached yet
+		// must not be read as its zero value
+		if why, failed := w.E.InitFailures()[g.Pkg.Pkg.Path()]; failed {
+			c.Poison = g.String() + " (package init failed: " + why + ")"
+		}
 	}
 	w.globals[g] = c
 	return c
